@@ -389,13 +389,24 @@ func (g *GoBackNConn) sendPacket(ctx context.Context, msg Message,
 		return fmt.Errorf("serialize error: %s", err)
 	}
 
+	// A resend invalidates the round-trip sample of the packet, and the
+	// timeout manager has to know that before the copy is on the wire: the
+	// send function may take its time to return, and the ACK that the copy
+	// provokes would otherwise be measured against the time the packet was
+	// first sent.
+	if isResend {
+		g.timeoutManager.Sent(msg, true)
+	}
+
 	err = g.cfg.sendToStream(ctx, b)
 	if err != nil {
 		return fmt.Errorf("error calling sendToStream: %s", err)
 	}
 
 	// Notify the timeout manager that a message has been sent.
-	g.timeoutManager.Sent(msg, isResend)
+	if !isResend {
+		g.timeoutManager.Sent(msg, false)
+	}
 
 	return nil
 }
